@@ -78,7 +78,9 @@ def analyse(ck, prog, pv, pvn, name, fieldname):
             ck.undecided("ROLE", name + "/filtered", "%s does not build self.%s with an iterator filter in its own body (helper / loop): the exclusion of the phenotype root is not classified" % (name, fieldname), where=b.where(s.line))
         else:
             ck.ob("ROLE", name + "/filtered", has_filter, "%s %s a filter on the root's children" % (name, "applies" if has_filter else "does NOT apply"), where=b.where(s.line))
-        # DOM: dominated by the found edge of every lookup
+        # DOM: dominated by the found edge of every lookup (of every KEY: a key that is looked up twice - once to reject the call early, once
+        # more where the term is used - needs one lookup whose success edge dominates the assignment)
+        by_key = {}
         for bi, t in b.calls():
             if t.callee.res != ONT + "hpo":
                 continue
@@ -96,6 +98,8 @@ def analyse(ck, prog, pv, pvn, name, fieldname):
                     if not errs and b.edge_dominates((sbi, tg), pos[0]):
                         okd = True
             k = t.args[1].const["val"] if t.args[1].kind == "const" else "?"
+            by_key[k] = by_key.get(k, False) or okd
+        for k, okd in sorted(by_key.items()):
             ck.ob("DOM", "%s/after-lookup/%s" % (name, k), okd, "self.%s is assigned %s the lookup of %s succeeded" % (fieldname, "only after" if okd else "WITHOUT being dominated by the success edge of", k), where=b.where(s.line))
     if not filters:
         return res
@@ -125,7 +129,21 @@ def analyse(ck, prog, pv, pvn, name, fieldname):
         if not chains and (for_loops(b) or not filters):
             ck.undecided("ROLE", name + "/chain", "the categories are not built with Iterator::chain in this body (loop / helper): the second source is not classified", where=b.where())
         elif not chains:
-            ck.ob("ROLE", name + "/chain", False, "categories do not include the children of PHENOTYPE_ID (no second source)", where=b.where())
+            # two `extend` calls into one fresh group (`g.extend(root children filtered); g.extend(phenotype children)`) are a chain written in two
+            # statements: the unfiltered one is the second source
+            exts = [(bi_, t_) for bi_, t_ in b.calls() if t_.callee.method == "extend" and len(t_.args) == 2]
+            second_ok = None
+            for bi_, t_ in exts:
+                src_ = pvc.of_operand(b, t_.args[1])
+                if any(a_[0] == "call" and a_[1].endswith("::filter") for a_ in src_):
+                    continue
+                lc_ = lookup_consts(b, src_, t_.args[1], pvn)
+                fl_ = term_fields(src_)
+                second_ok = (second_ok or False) or (lc_ == {"PHENOTYPE_ID"} and "children" in fl_ and not (fl_ & {"all_parents", "parents"}))
+            if len(exts) >= 2 and second_ok is not None:
+                ck.ob("ROLE", name + "/chain", second_ok, "categories are filled with two `extend` calls; the unfiltered one %s" % ("adds the children of the term looked up with PHENOTYPE_ID" if second_ok else "does NOT add the children of PHENOTYPE_ID"), where=b.where(exts[-1][1].line))
+            else:
+                ck.ob("ROLE", name + "/chain", False, "categories do not include the children of PHENOTYPE_ID (no second source)", where=b.where())
         for cbi, ctm in chains:
             second = pvc.of_operand(b, ctm.args[1])
             lc = lookup_consts(b, second, ctm.args[1], pvn)
@@ -183,9 +201,19 @@ def run(ck, prog, ctx):
                 if not re.search(r"HpoTerm::<'.*>::children_ids$|HpoTermInternal::children$|HpoTerm::<'.*>::children$", ct_.callee.res or "") or not ct_.args:
                     continue
                 chain_ = _rcr(hb_, pvn, ct_.args[0])
-                keys_ = [c_ for c_ in chain_ if (c_.callee.res == ONT + "hpo" or (c_.callee.res or "").startswith("ontology::termarena::Arena::get")) and len(c_.args) > 1]
+                # lookups BY ID: Ontology::hpo / the private Ontology::get(_unchecked) / Arena::get*, or any crate function of (self, key) whose key
+                # parameter is an id (`HpoTermId` / `impl Into<HpoTermId>`) and that answers with (an Option of) a term
+                def by_id_(c_):
+                    r_ = c_.callee.res or ""
+                    if len(c_.args) != 2:
+                        return False
+                    if r_ in (ONT + "hpo", ONT + "get", ONT + "get_unchecked") or r_.startswith("ontology::termarena::Arena::get"):
+                        return True
+                    tb_ = prog.bodies.get(r_)
+                    return tb_ is not None and tb_.nargs == 2 and re.search(r"HpoTermId|^I$|^T$|impl Into", tb_.locals[2]["s"]) is not None and re.search(r"HpoTerm", tb_.locals[0]["s"]) is not None and not tb_.natural_loops()
+                keys_ = [c_ for c_ in chain_ if by_id_(c_)]
                 by_shape = [c_ for c_ in chain_ if c_.callee.method in ("find", "find_map", "next", "min_by_key", "max_by_key", "position", "last", "nth")
-                            or ((c_.callee.res or "").startswith(ONT) and c_.callee.res not in (ONT + "hpo",) and prog.bodies.get(c_.callee.res) is not None and re.search(r"Option<.*HpoTerm", prog.bodies[c_.callee.res].locals[0]["s"]))]
+                            or ((c_.callee.res or "").startswith(ONT) and not by_id_(c_) and prog.bodies.get(c_.callee.res) is not None and re.search(r"Option<.*HpoTerm", prog.bodies[c_.callee.res].locals[0]["s"]))]
                 key_ = "%s/%s/%d" % (nm_, hb_.short, cbi_)
                 if keys_ and all(k_.args[1].kind == "const" or any(a_[0] in ("const", "constdef") for a_ in pvn.of_operand(hb_, k_.args[1])) for k_ in keys_):
                     ck.ob("ROOTKEY", key_, True, "%s reads the children of a term looked up with a constant id" % hb_.short, where=hb_.where(ct_.line))
